@@ -91,6 +91,12 @@ def sample_classes():
     for k, t in HINT_ALTS.items():
         out[f"hint/{k}"] = HEAD + [(2, t), (0, ",p[tn]"), (0, SP), (3, OPS), (0, TAIL)]
     out["noops/with_comment"] = G_NOOPS_COMMENT
+    # a direct branch whose target is written with hex LETTERS only (call bbd <sym>), with its symbol annotation
+    out["ops/branch_target_letters"] = HEAD + [(2, "(?:call|jmp|je|jne)"), (0, " {1,4}"), (3, "[a-f]{2,6}"), (0, " <[a-zA-Z_][a-zA-Z0-9_]{0,12}(?:\\+0x[0-9a-f]{1,4})?>")]
+    # a very long symbol annotation / comment (objdump -C prints demangled C++ names of several hundred characters)
+    out["ops/long_annotation"] = HEAD + [(2, "(?:call|mov|lea)"), (0, " {1,4}"), (3, OPS), (0, " <[a-zA-Z_:<>,*&()]{600,700}>")]
+    out["ops/long_comment"] = HEAD + [(2, "(?:mov|lea)"), (0, " {1,4}"), (3, OPS), (0, " {1,8}# [0-9a-f]{4,6} <[a-zA-Z_:]{600,650}>")]
+    out["ops/reg_then_imm"] = HEAD + [(2, "(?:out|outl|enter|bound)"), (0, " {1,4}"), (3, f"{REG},{IMM}"), (0, "")]
     out["ops/prefixed_hint"] = HEAD + [(2, "(?:bnd|cs|ds|repz|rex\\.W)"), (0, " "), (3, f"{JCC},p[tn]"), (0, TAIL)]
     return out
 
